@@ -198,6 +198,19 @@ def r14(ctx, lib):
         falses = [(bi, st) for bi, blk in enumerate(m.blocks) if not blk['cleanup'] for st in blk['stmts'] if st['p'][0] == 0 and not st['p'][1]
                   and st['rv']['k'] == 'agg' and st['rv'].get('variant') == 'Some' and st['rv']['ops'] and const_bool(st['rv']['ops'][0]) is False]
         dflt = [c for c in pm.calls(r'Option::<T>::unwrap_or$|Option<.*>::unwrap_or$') if const_bool(c.args[1]) is True]
+        if not dflt:
+            # the same three-way answer spelled `x != Some(false)` / `!matches!(x, Some(false))` / `x.map_or(true, ..)`: decided on the table of
+            # the returned bool over "the helper said Some(false)"
+            for cmp_ in comparisons(pm):
+                if cmp_.op in ('==', '!='):
+                    vals_ = [str(v) for a_ in (cmp_.a, cmp_.b) for v in slice_const_values(lib, backslice(pm, [a_]))]
+                    somes_ = [st for blk in pm.blocks for st in blk['stmts'] if st['rv']['k'] == 'agg' and st['rv'].get('variant') == 'Some' and st['rv']['ops'] and const_bool(st['rv']['ops'][0]) is False]
+                    if somes_ or any('Some' in v and 'false' in v for v in vals_) or any(v in ('option(false)',) for v in vals_):
+                        from ..analysis import truth_table, table_equals
+                        tt_ = truth_table(pm, {'is_some_false': cmp_.bb})
+                        okt = table_equals(tt_, (lambda a: not a['is_some_false']) if cmp_.op == '==' else (lambda a: a['is_some_false']))[0]
+                        if okt:
+                            dflt = [cmp_]
         ctx.check(bool(dflt), rule, pm.path + '|undecidable-is-true', pm.where(), 'is_partial_match answers `true` when the automaton cannot decide (None)',
                   'is_partial_match does not turn "cannot be determined" into `true`: a directory that may contain matches is pruned whenever the automaton gives up')
     dead = m.calls(r'LazyStateID::is_dead$|StateID::is_dead$|is_dead_state$')
